@@ -54,7 +54,8 @@ ASSUMPTIONS = [
     "the bounds after nucleation, in particular T <= max(T_0, T_eq_l), are evaluated on real runs only",
     "the lower bound is not claimed for VISF (the property excludes it)",
 ]
-RULE = ("the runs of C02 (2D shelf / VISF / jacket, 1D shelf / VISF; vials off the default aspect ratio); every bound "
+RULE = ("object histories (run, slower ramp, run again on the same object) and shelf/jacket programs that are still "
+        "running during the default vacuum window of the YAML (0.75-0.85 h), plus the runs of C02 (2D shelf / VISF / jacket, 1D shelf / VISF; vials off the default aspect ratio); every bound "
         "is evaluated on every reported node and time; a case counts as non-trivial when the run completes; cases "
         "outside the Biot part of Stab are evaluated but only counted")
 EXPLANATION = ("Lean theorems over the reals (convexity of every cooling-stage assignment, 0D steps, liquidus "
@@ -74,14 +75,41 @@ LEVEL_TEXT = ("PARTIAL proof. Lean 4 theorems (exact reals): the code's dt impli
 def cases(rng, tier):
     for c in u.standard_cases(tier, core.env_seed()):
         yield c
+    # shelf / jacket programs still running (surface warmer than -20 C) during the DEFAULT vacuum window
+    # 0.75-0.85 h of the YAML: nothing but the shelf (and jacket) may cool the product
+    # (1D runs are cheap whatever the step count; the bounds do not need every step recorded)
+    yield u._base("shelf", 0.015, 0.015, 400, 3300, dim="spatial_1D", start=20, stop=-16, rate=0.5)
+    if tier != "quick":
+        yield u._base("jacket", 0.015, 0.03, 400, 3300, start=20, stop=-16, rate=0.5)
+        yield u._base("shelf", 0.02, 0.02, 300, 3400, dim="spatial_1D", start=10, stop=-12, rate=0.2)
+    # object histories: run, slower ramp (nucleates at a later saved step), run again
+    yield dict(u._base("shelf", 0.01, 0.04, 1000, 200, dim="spatial_1D"), kind="history",
+               programs=[dict(rate=0.5, t_tot=300)])
+    yield dict(u._base("shelf", 0.01, 0.04, 1000, 200), kind="history", programs=[dict(rate=0.5, t_tot=300)])
+    if tier != "quick":
+        yield dict(u._base("VISF", 0.01, 0.04, 1000, 200, dim="spatial_1D"), kind="history",
+                   programs=[dict(rate=0.5, t_tot=300), dict(rate=0.7, t_tot=260)])
 
 
 def run_impl(case):
+    if case.get("kind") == "history":
+        base = {k: v for k, v in case.items() if k not in ("kind", "programs", "_corpus")}
+        res, last = u.run_history(base, case["programs"])
+        if res["raise"]:
+            return {"raise": res["raise"], "stage": res.get("stage")}
+        n = len(res["time"])
+        has = np.nonzero(res["ice"].reshape(n, -1).max(axis=1) > 0)[0]
+        # the nucleation row of THIS run: the reported time equals t_nuc (stats, minutes)
+        t_nuc = float(res["S"]._stats["t_nuc"]) * 60
+        tm = res["time"] * 3600
+        inuc = int(np.argmax(tm >= t_nuc - 1e-9)) + 1 if (tm >= t_nuc - 1e-9).any() else n
+        return {"raise": None, "n": n, "bounds": u._bounds_summary(last, res, min(inuc, n)), "history": True,
+                "first_ice_row": int(has[0]) if len(has) else None, "inuc": inuc, "last": last}
     return u.observe(case)
 
 
 def run_model(drv, case):
-    if case["dim"] != "spatial_2D":
+    if case.get("kind") == "history" or case["dim"] != "spatial_2D":
         return {"skip": True}
     return u.run_model(drv, case)
 
@@ -113,6 +141,8 @@ def predicates(case, impl):
     out = []
     if impl.get("raise") or not impl.get("bounds"):
         return out
+    if impl.get("history"):
+        case = impl["last"]
     if not in_stab(case):
         return out
     b = impl["bounds"]
@@ -145,6 +175,8 @@ def predicates(case, impl):
 
 
 def classify(case, impl):
+    if case.get("kind") == "history":
+        return ["kind=history", f"dim={case['dim']}"] + (["raise=" + impl["raise"]] if impl.get("raise") else [])
     tags = [f"dim={case['dim']}", f"config={case['config']}", "in-Stab" if in_stab(case) else "outside-Stab(Biot)"]
     if impl.get("raise"):
         tags.append("raise=" + impl["raise"])
